@@ -35,6 +35,9 @@ type SpecEnv struct {
 	vars  map[string]sv
 	pkg   *types.Package
 	where string
+	// entry: inside a loop clause, the entry values of the parameters (a parameter that the body reassigns is a
+	// loop-carried variable there; old(p) means the value the function was called with)
+	entry map[string]sv
 }
 
 func (env *SpecEnv) fail(format string, args ...interface{}) {
@@ -694,6 +697,16 @@ func (env *SpecEnv) call(n *ast.CallExpr) sv {
 			env.fail("old() outside a postcondition")
 		}
 		oe := env.withState(env.old)
+		if len(env.entry) > 0 {
+			nv := map[string]sv{}
+			for k, x := range env.vars {
+				nv[k] = x
+			}
+			for k, x := range env.entry {
+				nv[k] = x
+			}
+			oe.vars = nv
+		}
 		r := oe.eval(n.Args[0])
 		switch r.V.(type) {
 		case *SliceVal, *ArrayVal:
